@@ -96,6 +96,12 @@ func init() {
 }
 
 func (interp *Interpreter) run(n *node, cf *frame) {
+	interp.runWithID(n, cf, interp.runid())
+}
+
+// runWithID runs n in a new frame belonging to the run generation id, so that
+// a cancellation which happened since id was read also stops n.
+func (interp *Interpreter) runWithID(n *node, cf *frame, id uint64) {
 	if n == nil {
 		return
 	}
@@ -103,7 +109,7 @@ func (interp *Interpreter) run(n *node, cf *frame) {
 	if cf == nil {
 		f = interp.frame
 	} else {
-		f = newFrame(cf, len(n.types), interp.runid())
+		f = newFrame(cf, len(n.types), id)
 	}
 	interp.mutex.RLock()
 	c := reflect.ValueOf(interp.done)
